@@ -93,7 +93,7 @@ PROPS.update({
         assumptions=ASSUME_EXACT),
     "C09": dict(
         sub="c09", cfgs=FIVE, rule="value-sorted chains are generated (order re-asserted exactly by the harness) and parsed; bits of adjacent elements must be non-decreasing. No expected values. Non-trivial: more than 15 digits or |exponent| > 22.",
-        exhaustive_over={"quick": "(1) sorted SEAM significand list with 4 in-between truncated elements per step at every q in [-365,330]; (2) same digits across consecutive exponents; (3) runs of 4 consecutive floats x patterns x every binade: exact, midpoint - unit, midpoint - far digit, midpoint, midpoint + far digit, midpoint + unit (unit steps are integer steps for integer midpoints); (4) far-digit chains d=0..9",
+        exhaustive_over={"quick": "(1) sorted SEAM significand list with 4 in-between truncated elements per step at every q in [-365,330]; (2) same digits across consecutive exponents; (3) runs of 4 consecutive floats x patterns x every binade: exact, midpoint - unit, midpoint - far digit, midpoint, midpoint + far digit, midpoint + unit (unit steps are integer steps for integer midpoints); (3b) rich runs around ~27 patterns per binade: for every float its exact / shortest / 9-or-17-digit renderings and for every midpoint its truncations to 15..20 digits and those plus one unit (the short inputs next to a boundary that the moderate stage decides alone), sorted by exact comparison; (4) far-digit chains d=0..9",
                          "thorough": "512 extra patterns"},
         assumptions=["chain order is established by exact decimal comparison in the harness; a generator error is a machinery failure"]),
     "C10": dict(
